@@ -1,11 +1,98 @@
-import CelmaVerif.Model.ProgArgs.Groups
-/- C04 — property theorems (under construction: see DESIGN.md) -/
+import CelmaVerif.Lemmas.HandlerSafe
+import CelmaVerif.Lemmas.ArgStringMem
+import CelmaVerif.Generated.HandlerAlloc
+/-
+  C04 — argument evaluation is memory-safe for every argument vector and source.
+  What the model can carry: every read of argv is checked (`oob` = invalid access), every loop has
+  a bound, every exception is a value.  Heap discipline of unmodelled library objects is not
+  exhibited here (sanitised correspondence runs cover it, see DESIGN.md).
+-/
 namespace CelmaVerif.Props.C04
-open CelmaVerif CelmaVerif.ProgArgs
+open CelmaVerif CelmaVerif.ProgArgs CelmaVerif.Keys
 
-/-- placeholder obligation replaced by the real theorems: the model's begin iterator on a one-word
-    argv is the end iterator -/
-theorem C04_begin_single (w : Word) : (It.begin [w]).isOk = true := by
-  simp [It.begin, It.mkEnd, getWord, Res.isOk]
+/-- The argument cursor: for every argv with a program name, `begin()` reads no byte outside argv;
+    it yields a valid cursor or throws `argument_error` (a std::runtime_error). -/
+theorem C04_cursor_begin (argv : List Word) (h : 1 ≤ argv.length) :
+    BeginPost argv (It.begin argv) :=   -- ok it: it.Inv ∧ it.argv = argv; throw e: e = runtime_error; never oob
+  begin_good argv h
+
+/-- Every `operator++` from a valid cursor before the end — whatever bytes the words hold (only
+    dashes, '=', brackets, '!', empty words …), also on the copy the handler flags with "the rest of
+    the word is the value" — touches only `argv[i]` with `i < argc` and `argv[i][j]` with
+    `j ≤ strlen`; the cursor stays valid and strictly approaches the end. -/
+theorem C04_cursor_step (it : It) (flag : Bool) (h : it.Inv) (hne : it.atEnd = false) :
+    -- Good it r: ok it' with it'.Inv ∧ it'.argv = it.argv ∧ it'.measure < it.measure; throw runtime_error; never oob
+    Good it (({ it with remAsValue := flag } : It).step) :=
+  step_flag_good it flag h (notAtEnd_le h hne)
+
+/-- the distance to the end is bounded by the size of argv: iteration terminates after at most
+    `totalChars argv` steps -/
+theorem C04_cursor_terminates (it : It) : it.measure < totalChars it.argv := measure_lt_total it
+
+/-- Evaluation by a handler: for every configuration of the modelled fragment, every handler state,
+    every content of the argument file, every value of the environment variable and every argument
+    vector with a program name, `evalArguments` performs no access outside argv or a word, never
+    exhausts a loop bound (terminates), and ends with a normal return or an exception of a class
+    derived from std::exception. -/
+theorem C04_eval_safe (cfg : Cfg) (h : HState) (src : Sources) (argv : List Word) (hargc : 1 ≤ argv.length) :
+    Safe (evalArguments cfg h src argv) :=      -- Safe r: r is `ok _`, or `throw e` with `stdExc e`; never `oob`
+  evalArguments_safe cfg h src argv hargc
+
+/-- the same for evaluation through an argument group -/
+theorem C04_groups_eval_safe (cfg : Cfg) (inits : List DVal) (argMember globMember order : List Nat)
+    (argv : List Word) (hargc : 1 ≤ argv.length) :
+    Safe (groupsEval cfg inits argMember globMember order argv) :=
+  groupsEval_safe cfg inits argMember globMember order argv hargc
+
+/-- Key specifications (typed long keys go through the `ArgumentKey` string constructor): for every
+    string the constructor returns a key or throws std::invalid_argument; it never reads outside the
+    string. -/
+theorem C04_key_parse_total (s : List Char) :
+    (∃ k, Key.parse s = .ok k) ∨ Key.parse s = .throw .invalid_argument := parse_total s
+
+/-! ### the program-name copies (regenerated from handler.cpp on every run) -/
+
+/-- `strcpy( copy, arg0)` into `new char[ strlen( arg0) + extra]`: checked write of the text and its NUL -/
+def copyProgName (extra : Nat) (arg0 : List Byte) : Res (List Byte) :=
+  Mem.write (List.replicate (arg0.length + extra) 0) 0 (arg0 ++ [0]) "strcpy into program-name copy"
+
+theorem copyProgName_ok_iff (extra : Nat) (arg0 : List Byte) :
+    (∃ b, copyProgName extra arg0 = .ok b) ↔ 1 ≤ extra := by
+  unfold copyProgName Mem.write
+  simp only [List.length_append, List.length_replicate, List.length_cons, List.length_nil]
+  constructor
+  · intro ⟨b, hb⟩
+    split at hb
+    · omega
+    · cases hb
+  · intro h
+    have : 0 + (arg0.length + (0 + 1)) ≤ arg0.length + extra := by omega
+    rw [if_pos this]
+    exact ⟨_, rfl⟩
+
+/-- Both program-name copies of `handler.cpp` (as extracted from the current source): for a program
+    name of any length the copy stays inside its allocation, and the memory obtained with `new[]` is
+    released by an array deleter. -/
+theorem C04_progname_copy :
+    ∀ c ∈ Generated.HandlerAlloc.copies, (∀ arg0 : List Byte, ∃ b, copyProgName c.extra arg0 = .ok b) ∧
+      c.arrayOwner = true := by
+  have hall : ∀ c ∈ Generated.HandlerAlloc.copies, 1 ≤ c.extra ∧ c.arrayOwner = true := by decide
+  intro c hc
+  obtain ⟨h1, h2⟩ := hall c hc
+  exact ⟨fun arg0 => (copyProgName_ok_iff c.extra arg0).mpr h1, h2⟩
+
+/-- what the pinned commit did: an allocation of `strlen( arg0)` bytes is overrun for every name -/
+theorem C04_progname_copy_head_overflows (arg0 : List Byte) : ¬ ∃ b, copyProgName 0 arg0 = .ok b := by
+  rw [copyProgName_ok_iff]; omega
+
+/-! ### non-vacuity -/
+
+example : (It.begin ["prog".toList, "-fa5".toList, "--".toList, "-x".toList]).isOk = true := by decide
+example : (match It.begin ["p".toList, "--alpha=7".toList] with
+    | .ok it => it.atEnd == false && it.cur.str == "alpha".toList
+    | _ => false) = true := by decide
+example : (evalArguments { args := [{ key := ⟨some 'a', "alpha".toList⟩, kind := .int, vmode := .required, card := .max 1 }] }
+    { args := [{ dest := .int 0 }], pending := [], globals := [] } {} ["p".toList, "--alpha=7".toList]).isOk = true := by
+  decide
 
 end CelmaVerif.Props.C04
